@@ -615,7 +615,67 @@ func sortStrings(s []string) {
 	}
 }
 
+// wrappedOnce: a handler obtained from Wrap once and kept (the normal way to use a middleware) must answer every request
+// from the middleware's CURRENT configuration, whatever requests it served while earlier reconfigurations were under way --
+// the response depends on configuration, debug mode and request only, not on the handler's own request history.
+func wrappedOnce(o *Out, tier string) {
+	rounds := 6
+	if tier == "thorough" {
+		rounds = 40
+	}
+	mk := func(k int) cors.Config {
+		c := cors.Config{Origins: []string{"https://h" + strconv.Itoa(k) + ".example"}, Methods: []string{"PUT"}, MaxAgeInSeconds: 10 + k}
+		for j := 0; j < 300; j++ { // validation takes a little while: requests overlap it
+			c.Origins = append(c.Origins, "https://h"+strconv.Itoa(k)+"-"+strconv.Itoa(j)+".example")
+		}
+		return c
+	}
+	m, _ := cors.NewMiddleware(mk(0))
+	kept := m.Wrap(http.HandlerFunc(func(http.ResponseWriter, *http.Request) {}))
+	answer := func(h http.Handler, og string) string {
+		w := &rw{h: http.Header{}, status: -1}
+		h.ServeHTTP(w, &http.Request{Method: "GET", Header: http.Header{"Origin": {og}}, URL: &url.URL{Path: "/"}, Proto: "HTTP/1.1"})
+		return strings.Join(w.h["Access-Control-Allow-Origin"], ",")
+	}
+	msg := ""
+	for k := 1; k <= rounds && msg == ""; k++ {
+		var wg sync.WaitGroup
+		stop := make(chan struct{})
+		for g := 0; g < 4; g++ {
+			wg.Add(1)
+			go func() {
+				defer wg.Done()
+				for {
+					select {
+					case <-stop:
+						return
+					default:
+						_ = answer(kept, "https://h0.example")
+					}
+				}
+			}()
+		}
+		c := mk(k)
+		err := m.Reconfigure(&c)
+		close(stop)
+		wg.Wait()
+		if err != nil {
+			msg = "Reconfigure failed: " + err.Error()
+			break
+		}
+		fresh := m.Wrap(http.HandlerFunc(func(http.ResponseWriter, *http.Request) {}))
+		for _, og := range []string{"https://h" + strconv.Itoa(k) + ".example", "https://h" + strconv.Itoa(k-1) + ".example", "https://h0.example"} {
+			if a, b := answer(kept, og), answer(fresh, og); a != b {
+				msg = "round " + strconv.Itoa(k) + ": after Reconfigure returned and the traffic drained, the handler wrapped at the start answers Origin " + og + " with ACAO " + strconv.Quote(a) + ", a handler wrapped now with " + strconv.Quote(b)
+				break
+			}
+		}
+	}
+	o.emitDirect("alias/wrapped-once", msg == "", strconv.Itoa(rounds)+" reconfigurations under traffic through one kept handler "+msg)
+}
+
 func famAlias(o *Out, r R, tier string) {
+	wrappedOnce(o, tier)
 	n := 60
 	if tier == "thorough" {
 		n = 1200
